@@ -2002,6 +2002,128 @@ def restore_inlined(tree: ast.Module, modname: str) -> List[str]:
     return log
 
 
+def fold_entry_wrappers(tree: ast.Module, modname: str) -> List[str]:
+    """Step W (round 11): an entry point that only starts a recursive worker with fresh accumulators -
+    `def F(self, a, b): return self.W(a, b, set())` + `def W(self, a, b, done): .. self.W(x, y, done) ..`, W called from nowhere else -
+    is the worker under the entry point's name with the accumulator defaulted: `def F(self, a, b, done=None): if done is None: done = set(); ..`
+    (what the walk looked like before `extract method`). Callers of F pass the leading arguments only, so nothing changes for them."""
+    log: List[str] = []
+    for _ in range(4):
+        done_one = False
+        scopes = _scopes(tree)
+        for q, f, cls, container in scopes:
+            body = [st for st in f.body if not _is_doc_or_log(st)]
+            if len(body) != 1 or not isinstance(body[0], ast.Return) or not isinstance(body[0].value, ast.Call):
+                continue
+            call = body[0].value
+            cname = cls.name if cls is not None else None
+            static = any(isinstance(d, ast.Name) and d.id in ('staticmethod', 'classmethod') for d in f.decorator_list)
+            if f.decorator_list and not static:
+                continue
+            if call.keywords or any(isinstance(a, ast.Starred) for a in call.args):
+                continue
+            # the worker: a sibling def in the same container
+            if isinstance(call.func, ast.Attribute) and isinstance(call.func.value, ast.Name) and cls is not None:
+                recv, wname = call.func.value.id, call.func.attr
+            elif isinstance(call.func, ast.Name) and cls is None:
+                recv, wname = None, call.func.id
+            else:
+                continue
+            base = wname
+            if cname and base.startswith('_%s__' % cname.lstrip('_')):
+                base = base[len('_%s' % cname.lstrip('_')):]
+            workers = [st for st in container if isinstance(st, ast.FunctionDef) and st.name == base and st is not f]
+            if len(workers) != 1:
+                continue
+            w = workers[0]
+            if [ast.dump(d) for d in w.decorator_list] != [ast.dump(d) for d in f.decorator_list]:
+                continue
+            fparams = [a.arg for a in f.args.args]
+            wparams = [a.arg for a in w.args.args]
+            if f.args.vararg or f.args.kwarg or f.args.kwonlyargs or w.args.vararg or w.args.kwarg or w.args.kwonlyargs or w.args.defaults \
+                    or f.args.defaults:
+                continue
+            bound = cls is not None and not any(isinstance(d, ast.Name) and d.id == 'staticmethod' for d in f.decorator_list)
+            own_f = fparams[1:] if bound else fparams
+            own_w = wparams[1:] if bound else wparams
+            if bound and (recv != fparams[0]):
+                continue
+            if len(call.args) != len(own_w) or len(own_w) <= len(own_f):
+                continue
+            if [ast.unparse(a) for a in call.args[:len(own_f)]] != own_f:
+                continue
+            extras = call.args[len(own_f):]
+
+            def fresh(e):
+                if isinstance(e, ast.Constant):
+                    return True
+                if isinstance(e, (ast.List, ast.Dict, ast.Set)) and not (getattr(e, 'elts', None) or getattr(e, 'keys', None)):
+                    return True
+                return isinstance(e, ast.Call) and isinstance(e.func, ast.Name) and e.func.id in ('set', 'list', 'dict', 'OrderedDict') \
+                    and not e.args and not e.keywords
+            if not all(fresh(e) for e in extras):
+                continue
+            # W is recursive and called from nowhere but itself and F
+            names = set(_mangled(cname, base))
+
+            def refs(root, skip):
+                out = 0
+                for n in ast.walk(root):
+                    if n is skip:
+                        continue
+                    if (isinstance(n, ast.Attribute) and n.attr in names) or (isinstance(n, ast.Name) and n.id in names):
+                        out += 1
+                return out
+            inside = refs(w, None)
+            total = refs(tree, None)
+            if inside < 1 or total != inside + 1:
+                continue
+            # a parameter of the worker that is re-bound cannot simply take a default
+            extra_names = own_w[len(own_f):]
+            # build the folded function
+            new_defaults = []
+            prologue = []
+            for pn, e in zip(extra_names, extras):
+                if isinstance(e, ast.Constant):
+                    new_defaults.append(copy.deepcopy(e))
+                else:
+                    new_defaults.append(ast.Constant(None))
+                    test = ast.Compare(ast.Name(pn, ast.Load()), [ast.Is()], [ast.Constant(None)])
+                    prologue.append(ast.If(test, [ast.Assign([ast.Name(pn, ast.Store())], copy.deepcopy(e))], []))
+            # rename the worker's leading parameters to the entry point's (they may differ)
+            ren = {a: b for a, b in zip(wparams[:len(fparams)], fparams) if a != b}
+            if ren and any(isinstance(n, ast.Name) and n.id in ren.values() for n in ast.walk(w)):
+                continue
+            for n in ast.walk(w):
+                if isinstance(n, ast.Name) and n.id in ren:
+                    n.id = ren[n.id]
+                elif isinstance(n, ast.arg) and n.arg in ren:
+                    n.arg = ren[n.arg]
+            w.args.defaults = new_defaults
+            doc = [st for st in w.body if _is_doc_or_log(st) and isinstance(st, ast.Expr) and isinstance(st.value, ast.Constant)][:1]
+            rest = [st for st in w.body if st not in doc]
+            for st in prologue:
+                ast.copy_location(st, rest[0] if rest else w)
+                ast.fix_missing_locations(st)
+            w.body = doc + prologue + rest
+            # the worker takes the entry point's name; recursive calls follow
+            fname = f.name
+            for n in ast.walk(w):
+                if isinstance(n, ast.Attribute) and n.attr in names:
+                    n.attr = fname
+                elif isinstance(n, ast.Name) and n.id in names:
+                    n.id = fname
+            w.name = fname
+            w.returns = f.returns if f.returns is not None else w.returns
+            container.remove(f)
+            log.append('%s: entry point %s folded with its recursive worker %s (step W)' % (modname, q, base))
+            done_one = True
+            break
+        if not done_one:
+            break
+    return log
+
+
 def canonical_decomposition(tree: ast.Module, modname: str, baseline_bodies: Optional[Dict[str, str]] = None,
                             restored: bool = False) -> List[str]:
     if restored:
@@ -2010,6 +2132,10 @@ def canonical_decomposition(tree: ast.Module, modname: str, baseline_bodies: Opt
     else:
         PROTECTED[id(tree)] = set()
         log = restore_renamed(tree, modname, baseline_bodies)
+    try:
+        log += fold_entry_wrappers(tree, modname)
+    except Exception as e:                              # pragma: no cover
+        log.append('%s: step W skipped (%r)' % (modname, e))
     try:
         log += _Inliner(tree, modname).run()
     except RecursionError:
